@@ -490,6 +490,59 @@ def level_pairs(cfg, new, old, memo):
                     yield (ct, "none", "none", "none", (), (("val", R1), ("val", R2)))
 
 
+def vchain_shapes():
+    """Three-level hierarchies G <- M <- D in which a deficiency of the top class G is hidden
+    by the middle class M (user-provided constructors, abstractness, protected constructors),
+    every edge virtual or not; and diamonds with G on top reached through two virtual paths
+    and one non-virtual path.  Returned in dependency order (G, M, D), without duplicates."""
+    G = [("none", "none", "none", "none"),            # fine
+         ("int", "none", "none", "none"),             # no default constructor
+         ("def+copydel", "none", "none", "none"),     # deleted copy constructor
+         ("int+copydel", "none", "none", "none"),     # neither
+         ("none", "priv", "none", "none"),            # private destructor
+         ("none", "prot", "none", "none"),            # protected destructor
+         ("defprot+copyprot", "none", "none", "none")]   # protected constructors
+    M = [("none", "none", "none", "none"),            # plain
+         ("def+copy", "none", "none", "none"),        # user-provided default + copy constructor
+         ("none", "none", "none", "pure"),            # abstract
+         ("defprot+copyprot", "none", "none", "none")]
+    D = [("none", "none", "none", "none"),
+         ("none", "none", "none", "plain"),           # overrides the pure function, if any
+         ("dflt+dflt", "none", "none", "plain")]
+    out, seen = [], set()
+
+    def add(s):
+        if s not in seen:
+            seen.add(s)
+            out.append(s)
+
+    def cls(local, bases=()):
+        ct, dt, dm, vf = local
+        return (ct, dt, dm, vf, tuple(bases), ())
+    for g in G:
+        gs = cls(g)
+        add(gs)
+        for m in M:
+            for v1 in (False, True):
+                ms = cls(m, [("public", v1, gs)])
+                add(ms)
+                for d in D:
+                    for v2 in (False, True):
+                        add(cls(d, [("public", v2, ms)]))
+            # diamonds: M1, M2 inherit G virtually, M3 non-virtually
+            m1 = cls(m, [("public", True, gs)])
+            m2 = cls((m[0], m[1], "int", m[3]), [("public", True, gs)])
+            m3 = cls((m[0], m[1], "init", m[3]), [("public", False, gs)])
+            for x in (m1, m2, m3):
+                add(x)
+            for d in D:
+                for v in (False, True):
+                    add(cls(d, [("public", v, m1), ("public", False, m2)]))
+                    add(cls(d, [("public", v, m1), ("public", False, m2), ("public", False, m3)]))
+                    add(cls(d, [("public", v, m1), ("public", False, m3)]))
+    return out
+
+
 # ------------------------------------------------------------------ driver
 def detail_of(o, hdr=None):
     return {"shape": L.key(o.shape), "compiler": dict(o.gxx) if o.gxx else None,
@@ -565,7 +618,8 @@ def main():
                     # least one special member is implicit (something had to be decided)
                     nontrivial = (bits(g) != "00111111") and \
                         (o.shape[0] not in L.CT_DECLARES_COPY or o.shape[1] == "none")
-                    ck.note(k, nontrivial=nontrivial, outcome=outcome, family="depth%d" % level,
+                    fam = level if isinstance(level, str) else "depth%d" % level
+                    ck.note(k, nontrivial=nontrivial, outcome=outcome, family=fam,
                             sample={"class": L.render_class(o.shape, "K", _SelfNamer(o.shape)),
                                     "compiler": bits(g),
                                     "parse_file": o.pf, "database": o.db})
@@ -581,11 +635,23 @@ def main():
                     out.append(o)
         return out
 
+    # hand-shaped family: virtual-on-virtual chains and diamonds over a deficient top class
+    vshapes = vchain_shapes()
+    vobs = process("vchain", vshapes)
+    if vobs is None:
+        ck.cap("deadline during the vchain family")
+    else:
+        ck.extra["vchain"] = {"classes": len(vshapes), "valid": len(vobs)}
+        print("vchain: %d classes, %d valid, %.0fs" % (len(vshapes), len(vobs), ck.elapsed()), flush=True)
+
     reps = {}       # rep key -> shape (first in canonical order)
     coarse = {}
     completed = None
     all_new, all_newc = [], []
     for level in range(0, cfg["depth"] + 1):
+        if ck.only and "levels" not in ck.only:
+            completed = "vchain only"
+            break
         if level == 0:
             shapes = list(level0(cfg))
         else:
